@@ -1,5 +1,5 @@
 ------------------------------ MODULE Interp_MC_data ------------------------------
 EXTENDS Interp_MCF
 VARIABLES s, hist
-INSTANCE Interp_MCrun WITH Family <- DataFamily \cup BadDataFamily
+INSTANCE Interp_MCrun WITH Family <- DataFamily \cup BadDataFamily \cup PartReadFamily
 =============================================================================
